@@ -45,9 +45,20 @@ TIERS = {
     "quick": {"runs": 80, "chunk": 1, "wall": 110, "chunk_timeout": 500, "selftest": 4},
     "thorough": {"runs": 700, "chunk": 1, "wall": 800, "chunk_timeout": 900, "selftest": 8},
 }
+ISOLATE_RUNS = True
+
+
+def preload():
+    from .kit import setup_repo_path
+    setup_repo_path()
+    import importlib
+    for m in ("fcp.parser", "fcp.error"):
+        importlib.import_module(m)
+
+
 EXPECTED_PROBES = {t: ["torn_root_inside_token", "torn_module", "torn_to_empty", "garble_float_id", "garble_string_enum_value",
                        "garble_unknown_param", "garble_param_arity", "garble_empty_enum", "garble_array_size",
-                       "missing_module", "empty_module", "string_api", "shared_logger_reused", "err_rendered",
+                       "missing_module", "empty_module", "string_api", "tree_modified_in_place", "shared_logger_reused", "err_rendered",
                        "citation_checked"] for t in TIERS}
 
 REPL = {
@@ -235,7 +246,10 @@ def run_one(seed: int, index: int, tier: str) -> dict:
     tree_json = {"files": files}
     nviol = [0]
     sample_faults = []
-    recent = {"shared": [], "default": []}   # last parses through each long-lived logger (replay needs them)
+    recent = []        # the last three parses of this process (files + logger mode): what a replay needs to re-create
+    inplace = rl.random() < 0.7
+    if inplace:
+        probes["tree_modified_in_place"] += 1
 
     def deliver(kind, file, newtext, base, k, tokinfo):
         """Apply one fault to one file, parse, judge."""
@@ -252,13 +266,13 @@ def run_one(seed: int, index: int, tier: str) -> dict:
         if api == "string":
             v, out = judge_parse(par, "string", ff["main.fcp"], mode, {"main.fcp": [ff["main.fcp"]]}, probes)
         else:
-            sub = base / f"t{k}"
-            K.write_files(sub, ff)
+            # the tree lives in ONE directory that the faults modify in place (70 % of the runs)
+            sub = base / "tree" if inplace else base / f"t{k}"
+            K.sync_files(sub, ff)
             v, out = judge_parse(par, "file", sub / "main.fcp", mode, source_map(ff), probes)
         res["evals"] += 1
-        hist = list(recent.get(mode, []))
-        if mode in recent:
-            recent[mode] = (recent[mode] + [ff])[-3:]
+        hist = list(recent)
+        recent[:] = (recent + [{"files": ff, "logger": mode}])[-3:]
         faults[kind.split("_")[0] if kind.startswith("garble") else kind] += 1
         if out != "ok":
             distinct.add(short([depth_of.get(file, 1), kind, tokinfo, api, out]))
@@ -325,17 +339,18 @@ def check_workload(w):
     probes = Counter()
     mode = w.get("logger", "fresh")
     with Scratch("c11r") as base:
-        # earlier parses of the run that went through the same long-lived logger (not judged)
-        for hi, hf in enumerate(w.get("history", [])):
+        # the parses that preceded this one in the same process and directory (not judged)
+        for hf in w.get("history", []):
+            files_h, mode_h = (hf["files"], hf.get("logger", mode)) if "files" in hf else (hf, mode)
             if w.get("api") == "string":
-                par.parse("string", hf["main.fcp"], mode)
+                par.parse("string", files_h["main.fcp"], mode_h)
             else:
-                K.write_files(base / f"h{hi}", hf)
-                par.parse("file", base / f"h{hi}" / "main.fcp", mode)
+                K.sync_files(base / "t", files_h)
+                par.parse("file", base / "t" / "main.fcp", mode_h)
         if w.get("api") == "string":
             v, _ = judge_parse(par, "string", files["main.fcp"], mode, {"main.fcp": [files["main.fcp"]]}, probes)
         else:
-            K.write_files(base / "t", files)
+            K.sync_files(base / "t", files)
             v, _ = judge_parse(par, "file", base / "t" / "main.fcp", mode, source_map(files), probes)
     for x in v:
         out.append(mk(x, w, w.get("fault", {}).get("kind", "?"), same_bn))
